@@ -100,9 +100,35 @@ class ClassVal:
 
 
 class Instance:
+    """instance of a repository class; hashing / equality follow the class's own __hash__ / __eq__ (interpreted)"""
     def __init__(self, cls):
         self.cls = cls
         self.attrs = {}
+
+    def _dunder(self, name):
+        try:
+            f = self.cls.lookup(name)
+        except KeyError:
+            return None
+        return f if isinstance(f, FuncVal) else None
+
+    def __hash__(self):
+        f = self._dunder('__hash__')
+        if f is not None and Interp.current is not None:
+            r = Interp.current.call_function(f, [self], {}, None)
+            return hash(r)
+        return id(self)
+
+    def __eq__(self, other):
+        if self is other:
+            return True
+        f = self._dunder('__eq__')
+        if f is not None and Interp.current is not None:
+            r = Interp.current.call_function(f, [self, other], {}, None)
+            if isinstance(r, bool):
+                return r
+            return False
+        return False
 
     def __repr__(self):
         return f'<{self.cls.name} instance {self.attrs}>'
@@ -241,6 +267,7 @@ EXTERNAL_ROOTS = {
 
 class Interp:
     MAX_DEPTH = 40
+    current = None
 
     def __init__(self, repo, models):
         self.repo = repo
@@ -252,6 +279,7 @@ class Interp:
         self.steps = 0
         self.call_stack = []
         self.hooks = {}             # qualname -> python callable(interp, args, kwargs) overriding a repo function
+        Interp.current = self
         self.trace_calls = []
 
     # -------------------------------------------------------------------------------------------
